@@ -72,10 +72,18 @@ def run_single(vals, minimize, batching, repeats=None, pre=False):
     """Feed the values to a real single-objective tracker. `repeats`: list of positions; entry k of the
     presentation order is the individual created for position repeats[k] (re-presentation)."""
     rec = Recording()
-    problem = SingleObjectiveProblem(lambda ph: ph[1], minimize=minimize)
+    fn = lambda ph: ph[1]  # noqa: E731
+    problem = SingleObjectiveProblem(fn, minimize=minimize)
     tracker = SingleObjectiveProgressTracker(problem, SequentialEvaluator(), recorders=[rec])
     inds = [mk_ind(i, v) for i, v in enumerate(vals)]
-    if pre:
+    if pre == "same-function":
+        # the same individuals were searched before under ANOTHER problem over the SAME fitness function object, with the
+        # opposite direction (a warm start); that problem is still alive
+        other = SingleObjectiveProblem(fn, minimize=not minimize)
+        _OTHER_PROBLEMS.append(other)
+        del _OTHER_PROBLEMS[:-50]
+        SequentialEvaluator().evaluate(other, inds)
+    elif pre:
         pre_evaluate(inds, False)
     order = [inds[i] for i in (repeats if repeats is not None else range(len(vals)))]
     if batching == "one-by-one":
@@ -114,8 +122,11 @@ def check_single_histories(h: Harness):
                 batching = ("one-by-one", "batch", "single")[k % 3]
                 k += 1
                 pre = k % 4 == 1
+                if k % 8 == 5:
+                    pre = "same-function"
                 rec, _ = run_single(vals, minimize, batching, pre=pre)
-                judge_single(h, site, rec, minimize, f"history {list(vals)} ({batching}" + (", individuals scored on another problem before)" if pre else ")"))
+                judge_single(h, site, rec, minimize, f"history {list(vals)} ({batching}" + (", individuals scored on another problem before)" if pre is True else
+                             (", individuals scored before on a live problem over the same fitness function with the opposite direction)" if pre else ")")))
         h.count(f"single:len{n}", 2 * 3 ** n)
     # re-presented individuals and longer histories over a wider range
     rng = h.rng
@@ -199,6 +210,11 @@ def run_multi(aggs, variant, batching, repeats=None, pre=False):
         problem = MultiObjectiveProblem([False, True], lambda ph: [ph[1] + (ph[0] % 3), ph[0] % 3])
     elif variant == "bool":
         problem = MultiObjectiveProblem(True, lambda ph: [-ph[1] - (ph[0] % 2), ph[0] % 2])
+    elif variant == "one-min":
+        # a multi-objective problem that happens to have ONE objective, minimised (default aggregate = the negated component)
+        problem = MultiObjectiveProblem([True], lambda ph: [-ph[1]])
+    elif variant == "one-min-bool":
+        problem = MultiObjectiveProblem(True, lambda ph: [-ph[1]])
     else:
         problem = MultiObjectiveProblem([False, False], lambda ph: [ph[1], 7 - ph[0]], aggregate_fitness=lambda comps: comps[0])
     tracker = MultiObjectiveProgressTracker(problem, SequentialEvaluator(), recorders=[rec])
@@ -214,8 +230,16 @@ def run_multi(aggs, variant, batching, repeats=None, pre=False):
     return rec, tracker
 
 
-def judge_multi(h: Harness, site, rec, label):
+VARIANT_MINS = {"default": [False, True], "bool": [True, True], "one-min": [True], "one-min-bool": [True]}
+
+
+def judge_multi(h: Harness, site, rec, label, variant=None):
     hist = [[r["uid"], as_int(r["agg"])] for r in rec.rows]
+    mins = VARIANT_MINS.get(variant)
+    if mins is not None:
+        # without a user-supplied aggregate, "best aggregate" is the sum of the components with the minimised ones negated:
+        # computed here from the components the individuals carry and the DECLARED directions
+        hist = [[r["uid"], sum(-as_int(c) if m else as_int(c) for c, m in zip(r["comps"], mins))] for r in rec.rows]
     fronts = [list(r["front"]) for r in rec.rows]
     flags = [bool(r["is_best"]) for r in rec.rows]
     vals = [x[1] for x in hist]
@@ -231,12 +255,12 @@ def check_multi_histories(h: Harness):
     k = 0
     for n in range(1, L + 1):
         for aggs in itertools.product((0, 1, 2), repeat=n):
-            variant = ("default", "bool", "user")[k % 3]
-            batching = ("one-by-one", "batch")[(k // 3) % 2]
+            variant = ("default", "bool", "user", "one-min", "one-min-bool")[k % 5]
+            batching = ("one-by-one", "batch")[(k // 5) % 2]
             k += 1
             pre = k % 4 == 1
             rec, _ = run_multi(aggs, variant, batching, pre=pre)
-            judge_multi(h, site, rec, f"aggregate history {list(aggs)} ({variant} aggregate, {batching}" + (", individuals scored on another problem before)" if pre else ")"))
+            judge_multi(h, site, rec, f"aggregate history {list(aggs)} ({variant} aggregate, {batching}" + (", individuals scored on another problem before)" if pre else ")"), variant)
         h.count(f"multi:len{n}", 3 ** n)
     rng = h.rng
     for _ in range(h.n(150, 1500)):
@@ -245,8 +269,9 @@ def check_multi_histories(h: Harness):
         m = rng.randint(n, n + 5)
         repeats = list(range(n)) + [rng.randrange(n) for _ in range(m - n)]
         rng.shuffle(repeats)
-        rec, _ = run_multi(aggs, rng.choice(["default", "bool", "user"]), rng.choice(["one-by-one", "batch"]), repeats)
-        judge_multi(h, site, rec, f"aggregates {aggs} presented in order {repeats}")
+        variant = rng.choice(["default", "bool", "user", "one-min", "one-min-bool"])
+        rec, _ = run_multi(aggs, variant, rng.choice(["one-by-one", "batch"]), repeats)
+        judge_multi(h, site, rec, f"aggregates {aggs} presented in order {repeats} ({variant} aggregate)", variant)
         h.count("multi:re-presented")
 
 
